@@ -103,6 +103,7 @@ type ContractSet struct {
 	Axioms []*Axiom
 	Groups map[string][]*TypeExpr // named groups of heap types: heaps NAME = T1, T2, ...
 	Ghosts []string               // global boolean ghost variables: ghost NAME bool
+	CallbackGhosts map[string]bool // ... declared `callback`
 }
 
 var kwRe = regexp.MustCompile(`^(func|extern|fun|ofun|heaps|ghost|axiom|lemma|aspect|requires|ensures|modifies|decreases|loop|pure|fresh|havocs|maypanic|panics|inline|assumed|props|noframe|uses|trusted_ensures|callsite|clobbers)\b`)
@@ -200,10 +201,18 @@ func (cs *ContractSet) load(path, pkgPath string) error {
 			cur = fc
 		case "ghost":
 			f := strings.Fields(it.text)
-			if len(f) != 2 || f[1] != "bool" {
-				return fail(it, "ghost NAME bool")
+			if !(len(f) == 2 || (len(f) == 3 && f[2] == "callback")) || f[1] != "bool" {
+				return fail(it, "ghost NAME bool [callback]")
 			}
 			cs.Ghosts = append(cs.Ghosts, f[0])
+			if len(f) == 3 {
+				// set by every call through an unknown function value (a callback parameter); only the units whose
+				// contract lists it are checked against it
+				if cs.CallbackGhosts == nil {
+					cs.CallbackGhosts = map[string]bool{}
+				}
+				cs.CallbackGhosts[f[0]] = true
+			}
 			cur = nil
 		case "heaps":
 			i := strings.Index(it.text, "=")
